@@ -358,6 +358,10 @@ pub fn run(ctx: &mut Ctx) -> (String, Value, Vec<String>) {
     crate::util::silence_panics();
     let h: u64 = if ctx.quick() { 64 } else { 110 };
     let specs = menu(ctx.quick());
+    // every watchdog hit costs its full cap and leaks a spinning thread: after this many reported
+    // non-terminating cases the remaining cases are skipped (counted; the run is a violation anyway)
+    const MAX_HANG_WITNESSES: u64 = 4;
+    let mut skipped_after_hangs = 0u64;
     let mut evals = 0u64;
     let mut nontrivial = 0u64;
     let mut samples = vec![];
@@ -366,6 +370,10 @@ pub fn run(ctx: &mut Ctx) -> (String, Value, Vec<String>) {
     let sparse = sparse_menu();
     let jobs: Vec<(&ArrSpec, u64)> = specs.iter().map(|x| (x, h)).chain(sparse.iter().map(|x| (x, 3200u64))).collect();
     for (spec, h) in jobs {
+        if ctx.hangs_reported() >= MAX_HANG_WITNESSES {
+            skipped_after_hangs += 1;
+            continue;
+        }
         evals += 1;
         let sp = spec.clone();
         let name = type_name(spec);
@@ -404,6 +412,10 @@ pub fn run(ctx: &mut Ctx) -> (String, Value, Vec<String>) {
             if !leaf && i % 23 != 0 {
                 continue;
             }
+            if ctx.hangs_reported() >= MAX_HANG_WITNESSES {
+                skipped_after_hangs += 1;
+                continue;
+            }
             // nothing arrives: nothing to compare far out
             evals += 1;
             far += 1;
@@ -425,6 +437,10 @@ pub fn run(ctx: &mut Ctx) -> (String, Value, Vec<String>) {
     }
     let rbs = rb_menu(ctx.quick());
     for spec in &rbs {
+        if ctx.hangs_reported() >= MAX_HANG_WITNESSES {
+            skipped_after_hangs += 1;
+            continue;
+        }
         evals += 1;
         let sp = spec.clone();
         match with_timeout(20.0, move || eval_rb(&sp, h)) {
@@ -457,7 +473,8 @@ pub fn run(ctx: &mut Ctx) -> (String, Value, Vec<String>) {
         "horizon": h,
         "far_window_evaluations": far,
         "samples": samples,
-        "exhaustive": true,
+        "cases_skipped_after_four_non_terminating_ones": skipped_after_hangs,
+        "exhaustive": skipped_after_hangs == 0,
     });
     ("exploration".into(), cov, vec!["request bounds: every job has a positive cost (as the statement presupposes)".into()])
 }
